@@ -2,6 +2,9 @@
 //! one JSON object per case ({"in": ..., "out": ...}) on stdout.
 mod rng;
 mod detect;
+mod matchers;
+mod semverx;
+mod pypi;
 
 use std::collections::HashMap;
 
@@ -41,6 +44,9 @@ fn main() {
     std::panic::set_hook(Box::new(|_| {}));
     match argv[1].as_str() {
         "detect" => detect::run(&args),
+        "matchers" => matchers::run(&args),
+        "semver" => semverx::run(&args),
+        "pypi" => pypi::run(&args),
         other => {
             eprintln!("unknown stream {other}");
             std::process::exit(2);
